@@ -1,4 +1,5 @@
 import RV.Json
+import RV.Drv.Fault
 import RV.Drv.Arith
 import RV.Drv.Traffic
 import RV.Model.RolloutSM
@@ -167,6 +168,7 @@ def handle : Handler := fun op inp impl => do
                        ("net", netToJson r.w.net), ("mem", memToJson r.w.mem)]
       return { model := mkObj [("requeue", boolJ r.requeue), ("err", boolJ r.err), ("roGone", boolJ r.roGone), ("w", wj)],
                holds := holds, tags := tags }
+  | "fault" => RV.Drv.Fault.handleFault ["C01", "C02", "C03", "C04", "C05", "C06", "C07", "C09", "C10", "C18"] impl
   | _ => .error s!"rolloutsm: unknown op {op}"
 
 end RV.Drv.RolloutSM
